@@ -355,8 +355,9 @@ def run(ctx):
             want = ref_fmtnum(n, f)
             if want is not None and o["o"] != want:
                 mm = re.fullmatch(r"[^%]*%[-+ 0#]*\d*(?:\.\d+)?(?:ll|l)?([a-zA-Z])(.*)", f)
-                cls = ("fmtnum-trailing-text" if mm and mm.group(2) else "fmtnum-verb-unsupported" if mm and mm.group(1) in "obXEG"
-                       else "fmtnum-x-negative-not-twos-complement" if mm and mm.group(1) == "x" and n.startswith("-") else "fmtnum-printf")
+                cls = ("fmtnum-trailing-text" if mm and mm.group(2)
+                       else "fmtnum-x-negative-not-twos-complement" if mm and mm.group(1) in "xXob" and n.startswith("-")
+                       else "fmtnum-verb-unsupported" if mm and mm.group(1) in "obXEG" and "%!" in o["o"] else "fmtnum-printf")
                 bad(cls, input={"value": n, "format": f}, observed=o["o"], expected=want, how="mlr -n put 'end{print fmtnum(%s, \"%s\")}'" % (n, f))
         ctx.dist("fmtnum_rows", len(rows7))
         # (6) verbs
